@@ -2,14 +2,21 @@
 (* Anti-vacuity run for RedisStop (see ListenerWin). *)
 EXTENDS RedisStop
 
-ASSUME TLCSet(101, FALSE) /\ TLCSet(102, FALSE) /\ TLCSet(103, FALSE)
+ASSUME TLCSet(101, FALSE) /\ TLCSet(102, FALSE) /\ TLCSet(103, FALSE) /\ TLCSet(104, FALSE) /\ TLCSet(105, FALSE)
 
 RecordWindows ==
   /\ W_StopWithSilentBackend => TLCSet(101, TRUE)
   /\ W_StopWhileRefreshWaits => TLCSet(102, TRUE)
   /\ W_StopWithFullSessionQueue => TLCSet(103, TRUE)
+  /\ W_StopWithFullBackendQueue => TLCSet(104, TRUE)
+  /\ W_StopWhileRefreshBlockedInSend => TLCSet(105, TRUE)
 
+\* MC_RedisStop_traps.cfg (room in the backend queue): the three waits
 AllWindowsReached ==
   IF TLCGet(101) /\ TLCGet(102) /\ TLCGet(103) THEN TRUE
   ELSE Print(<<"@@UNREACHED", TLCGet(101), TLCGet(102), TLCGet(103)>>, FALSE)
+\* MC_RedisStop_traps_fullqueue.cfg (ClientQCap = 2): the two blocked Sends
+FullQueueWindowsReached ==
+  IF TLCGet(104) /\ TLCGet(105) THEN TRUE
+  ELSE Print(<<"@@UNREACHED", TLCGet(104), TLCGet(105)>>, FALSE)
 =============================================================================
